@@ -91,7 +91,8 @@ SigArgs(c) == IF c.kind \in {"cls", "meth"} THEN <<"self">> \o c.pos ELSE c.pos 
 NamedParams(c) == ToSet(SigArgs(c)) \cup ToSet(c.kwo)
 HasDefault(c, p) == \E d \in c.dflt : d[1] = p
 DefaultOf(c, p) == (CHOOSE d \in c.dflt : d[1] = p)[2]
-ConfBySel(sel) == CHOOSE c \in Confs : c.sel = sel   \* descriptors have unique selectors
+\* the registered descriptor with that selector (selectors are unique within a registry)
+ConfBySel(sel) == IF \E c \in reg : c.sel = sel THEN CHOOSE c \in reg : c.sel = sel ELSE CHOOSE c \in Confs : c.sel = sel
 Allowed(c, p) == (c.allow = {"*"} \/ p \in c.allow) /\ p \notin c.deny
 \* _might_have_parameter (1118-1141)
 MightHave(c, p) == c.vk \/ p \in NamedParams(c)
@@ -461,14 +462,17 @@ ExitScope(byException) ==
   /\ UNCHANGED <<reg, cfg, okeys, oper, locked, usaved, interactive, singles, consts, hooks>>
 
 \* a configurable is called from Python
+CallBody(c, call) ==
+  /\ LET r == CallW(cfg, MkS(okeys, oper, singles, <<>>), c, CurScope, call) IN
+     /\ okeys' = r.s.okeys /\ oper' = r.s.oper /\ singles' = r.s.singles
+     /\ out' = [op |-> "Call", sel |-> c.sel, pargs |-> call.pargs, ckw |-> call.kw, status |-> r.status,
+                delivered |-> r.delivered, va |-> r.va, kw |-> r.kw,
+                missing |-> r.missing, ran |-> r.ran, ret |-> r.ret, evals |-> r.s.evals]
+  /\ UNCHANGED <<reg, cfg, stack, locked, usaved, interactive, consts, hooks>>
 Call(c, call) ==
   /\ "Call" \in Enabled
   /\ c \in reg /\ call \in CallSpaceOf[c]
-  /\ LET r == CallW(cfg, MkS(okeys, oper, singles, <<>>), c, CurScope, call) IN
-     /\ okeys' = r.s.okeys /\ oper' = r.s.oper /\ singles' = r.s.singles
-     /\ out' = [op |-> "Call", sel |-> c.sel, pargs |-> call.pargs, ckw |-> call.kw, status |-> r.status, delivered |-> r.delivered, va |-> r.va, kw |-> r.kw,
-                missing |-> r.missing, ran |-> r.ran, ret |-> r.ret, evals |-> r.s.evals]
-  /\ UNCHANGED <<reg, cfg, stack, locked, usaved, interactive, consts, hooks>>
+  /\ CallBody(c, call)
 
 \* clear_config (1004-1029)
 Clear(clearConstants) ==
